@@ -249,6 +249,17 @@ impl Term {
     }
   }
 
+  /// the same tree without any CachedSource wrapper
+  pub fn strip_cached(&self) -> Term {
+    match self {
+      Term::Cached(i) => i.strip_cached(),
+      Term::Boxed(i) => Term::Boxed(Box::new(i.strip_cached())),
+      Term::Replace(i, r) => Term::Replace(Box::new(i.strip_cached()), r.clone()),
+      Term::Concat { children, typed, add } => Term::Concat { children: children.iter().map(|c| c.strip_cached()).collect(), typed: *typed, add: *add },
+      other => other.clone(),
+    }
+  }
+
   pub fn any(&self, f: &dyn Fn(&Term) -> bool) -> bool {
     if f(self) {
       return true;
